@@ -82,6 +82,10 @@ def report(c, pv, replay_obj, extra=""):
 
 def run_replay_file(c, binp, path):
     obj = json.load(open(path)).get("replay") or {}
+    if obj.get("kind") == "trace":
+        c.seed = int(json.load(open(path)).get("seed", c.seed))
+        print("re-recording the random soups of seed %d and validating them against Trace_SegSoup" % c.seed)
+        return trace_step(c, binp)
     case = obj.get("case")
     if not case:
         c.fail_tool("replay file without a case")
@@ -101,6 +105,37 @@ def run_replay_file(c, binp, path):
         print("  real : child died:", res["died"])
     for pv in res["pv"]:
         report(c, pv, obj)
+
+
+def trace_step(c, binp):
+    """random segment soup -> trace validation (also used by --replay for trace counterexamples)"""
+    ev = os.path.join(c.work, "trace_soup.ndjson")
+    resj = os.path.join(c.work, "record.json")
+    rc, so = c.sh([binp, "record", ev, resj], timeout=6000)
+    if rc != 0:
+        c.fail_tool("record harness failed rc=%s %s" % (rc, (getattr(c, "last_stderr", "") or "")[-400:]))
+    rec = json.load(open(resj))
+    for pv in rec["pv"]:
+        report(c, pv, {"kind": "soup", "case": {"soup": pv["case"]["soup"], "h": [], "t": 0,
+                                                "x": [{"src": p[0], "dst": p[1], "paths": [], "good": [], "panic": False, "allnc": False} for p in pv["case"]["pairs"]]}},
+               " (record run %s, seed %d)" % (pv.get("run"), c.seed))
+    if rec["max_segments"] < 30:
+        c.fail_tool("vacuous traces: largest soup has only %d segments" % rec["max_segments"])
+    r = c.tlc(SD, "Trace_SegSoup", cfg="Trace_SegSoup.cfg", mode="trace", env={"TRACE": ev}, timeout=6000)
+    traces = 0
+    if r.violated:
+        for inv in r.violated:
+            c.violation("trace:%s" % inv, "invariant %s violated on a recorded execution of the real combinator (seed %d); TLC output %s" % (inv, c.seed, r.out_path),
+                        {"kind": "trace", "trace": ev, "tlc_out": r.out_path})
+    elif r.postcondition_failed or not r.ok:
+        c.drift("soup trace not accepted by Trace_SegSoup (see %s)" % r.out_path)
+    else:
+        traces = rec["events"]
+    c.cov["traces_validated_against_impl"] = traces
+    c.cov["evaluations"] += 2 * rec["events"]
+    c.cov["distinct_nontrivial"] += rec["nontrivial_runs"]
+    c.cov["trace_stats"] = {k: rec[k] for k in ("runs", "events", "nontrivial_runs", "ops", "max_cpu_us", "max_segments")}
+    c.sample({"trace_event": "one soup event per (random soup, src, dst): descriptor + outcome, see spec/SegSoup/Trace_SegSoup.tla"})
 
 
 def run(c):
@@ -227,30 +262,4 @@ def run(c):
     c.cov["evaluations"] = calls
 
     # ---- 3. random segment soup -> trace validation ----------------------------------------------
-    ev = os.path.join(c.work, "trace_soup.ndjson")
-    resj = os.path.join(c.work, "record.json")
-    rc, so = c.sh([binp, "record", ev, resj], timeout=6000)
-    if rc != 0:
-        c.fail_tool("record harness failed rc=%s %s" % (rc, (getattr(c, "last_stderr", "") or "")[-400:]))
-    rec = json.load(open(resj))
-    for pv in rec["pv"]:
-        report(c, pv, {"kind": "soup", "case": {"soup": pv["case"]["soup"], "h": [], "t": 0,
-                                                "x": [{"src": p[0], "dst": p[1], "paths": [], "good": [], "panic": False, "allnc": False} for p in pv["case"]["pairs"]]}},
-               " (record run %s, seed %d)" % (pv.get("run"), c.seed))
-    if rec["max_segments"] < 30:
-        c.fail_tool("vacuous traces: largest soup has only %d segments" % rec["max_segments"])
-    r = c.tlc(SD, "Trace_SegSoup", cfg="Trace_SegSoup.cfg", mode="trace", env={"TRACE": ev}, timeout=6000)
-    traces = 0
-    if r.violated:
-        for inv in r.violated:
-            c.violation("trace:%s" % inv, "invariant %s violated on a recorded execution of the real combinator (seed %d); TLC output %s" % (inv, c.seed, r.out_path),
-                        {"kind": "trace", "trace": ev, "tlc_out": r.out_path})
-    elif r.postcondition_failed or not r.ok:
-        c.drift("soup trace not accepted by Trace_SegSoup (see %s)" % r.out_path)
-    else:
-        traces = rec["events"]
-    c.cov["traces_validated_against_impl"] = traces
-    c.cov["evaluations"] += 2 * rec["events"]
-    c.cov["distinct_nontrivial"] += rec["nontrivial_runs"]
-    c.cov["trace_stats"] = {k: rec[k] for k in ("runs", "events", "nontrivial_runs", "ops", "max_cpu_us", "max_segments")}
-    c.sample({"trace_event": "one soup event per (random soup, src, dst): descriptor + outcome, see spec/SegSoup/Trace_SegSoup.tla"})
+    trace_step(c, binp)
